@@ -67,7 +67,11 @@ Inductive lam_args := LamTimeVarsPars | LamTimeY0KeysPars | LamUnknown.
     variables at conversion time -- coq/symbolic/SignFold.v) *)
 Inductive var_symbols := VarSymPlain | VarSymNonneg | VarSymUnknown.
 Inductive sym_table := SymVarsParsData | SymVarsParsDataSurr | SymUnknown.
-Inductive stat_term := StatFloatTimesRate | StatUnknown.
+(** the static statement: the coefficient is sympy.Float(stoich_value) (shipped), or
+    sympy.Rational(stoich_value).limit_denominator() (StatRationalLimited: seeded change C12-9, a regression --
+    the nearest fraction with denominator <= 10^6 is NOT the coefficient when the coefficient is of
+    unit-conversion size) *)
+Inductive stat_term := StatFloatTimesRate | StatRationalLimited | StatUnknown.
 Inductive dyn_term := DynListTimesRate | DynCoefTimesRate | DynUnknown.
 Inductive fallback_kind := FallbackWarnAnyException | FallbackUnknown.
 Inductive time_arg := TimePlain | TimeShifted | TimeUnknown.
@@ -75,7 +79,7 @@ Inductive time_arg := TimePlain | TimeShifted | TimeUnknown.
 Record sym_facts := mkSymFacts {
   sf_order : der_order ;          (* derived inserted into the symbol table in which order *)
   sf_symtab : sym_table ;         (* symbols = variables | parameters | data   (| surrogates: the merged table, a regression) *)
-  sf_stat : stat_term ;           (* eqs[cpd] = eqs.get(cpd, 0.0) + Float(n) * rxns[rxn] *)
+  sf_stat : stat_term ;           (* eqs[cpd] = eqs.get(cpd, 0.0) + Float(n) * rxns[rxn]   (| Rational(n).limit_denominator() * rxns[rxn]) *)
   sf_dyn : dyn_term ;             (* the dynamic-coefficient statement (list * expression) *)
   sf_eqs : eqs_order ;            (* eqs = [eqs[i] for i in cache.var_names] *)
   sf_jac : jac_layout ;           (* Matrix(eqs).jacobian(Matrix(list(variables.values()))) *)
@@ -128,6 +132,83 @@ Definition table_names (F : sym_facts) (m : smodel) : option (list name) :=
   | SymVarsParsData => Some (base_names m)
   | SymVarsParsDataSurr => Some (base_names m ++ surr_outputs m)
   | SymUnknown => None
+  end.
+
+(** ---- the coefficient of the static statement under the regenerated fact ------------------------
+    fractions.Fraction.limit_denominator(max_denominator=1000000) of CPython 3.12, to which
+    sympy.Rational.limit_denominator delegates, statement by statement:
+
+        if self._denominator <= max_denominator: return Fraction(self)
+        p0, q0, p1, q1 = 0, 1, 1, 0
+        n, d = self._numerator, self._denominator
+        while True:
+            a = n//d
+            q2 = q0+a*q1
+            if q2 > max_denominator: break
+            p0, q0, p1, q1 = p1, q1, p0+a*p1, q2
+            n, d = d, n-a*d
+        k = (max_denominator-q0)//q1
+        if 2*d*(q0+k*q1) <= self._denominator: return Fraction(p1, q1)
+        else: return Fraction(p0+k*p1, q0+k*q1)
+
+    (// is floor division = Z.div for a positive divisor.)  The loop is the continued-fraction expansion: the
+    denominators q grow at least like the Fibonacci numbers, so it breaks within 31 rounds for max_denominator =
+    10^6; the fuel 64 is never used up on a Fraction (exhaustion = None = an UNMODELLED outcome that equals no
+    observation; validated against CPython's function on every run by the correspondence shard c12_limden). *)
+Definition max_den : Z := 1000000.
+
+Fixpoint limit_loop (fuel : nat) (p0 q0 p1 q1 n d : Z) : option (Z * Z * Z * Z * Z) :=
+  match fuel with
+  | O => None
+  | S f =>
+      let a := (n / d)%Z in
+      let q2 := (q0 + a * q1)%Z in
+      if (max_den <? q2)%Z then Some (p0, q0, p1, q1, d)
+      else limit_loop f p1 q1 (p0 + a * p1)%Z q2 d (n - a * d)%Z
+  end.
+
+Definition limit_den (x : Q) : option Q :=
+  let r := Qred x in
+  if (Z.pos (Qden r) <=? max_den)%Z then Some x
+  else
+    match limit_loop 64 0 1 1 0 (Qnum r) (Z.pos (Qden r)) with
+    | None => None
+    | Some (p0, q0, p1, q1, d) =>
+        let k := ((max_den - q0) / q1)%Z in
+        if (2 * d * (q0 + k * q1) <=? Z.pos (Qden r))%Z
+        then Some (p1 # Z.to_pos q1)
+        else Some ((p0 + k * p1) # Z.to_pos (q0 + k * q1))
+    end.
+
+Fixpoint limit_row (st : list (name * Q)) : option (list (name * Q)) :=
+  match st with
+  | [] => Some []
+  | (r, n) :: rest =>
+      match limit_den n, limit_row rest with
+      | Some n', Some l => Some ((r, n') :: l)
+      | _, _ => None
+      end
+  end.
+Fixpoint limit_tbl (tbl : list (name * list (name * Q))) : option (list (name * list (name * Q))) :=
+  match tbl with
+  | [] => Some []
+  | (cpd, st) :: rest =>
+      match limit_row st, limit_tbl rest with
+      | Some st', Some l => Some ((cpd, st') :: l)
+      | _, _ => None
+      end
+  end.
+
+Definition with_stoich (m : smodel) (tbl : list (name * list (name * Q))) : smodel :=
+  mkSM (m_vars m) (m_pars m) (m_data m) (m_der m) (m_rxn m) (m_order m) tbl (m_dyn m) (m_surr m).
+
+(** the model as the static loop SEES it: cache.stoich_by_cpds with every number replaced by the coefficient the
+    statement multiplies the rate with.  Shipped: Float(n) = n, the model itself. *)
+Definition stat_view (F : sym_facts) (m : smodel) : option smodel :=
+  match sf_stat F with
+  | StatFloatTimesRate => Some m
+  | StatRationalLimited => option_map (with_stoich m) (limit_tbl (m_stoich m))
+  | StatUnknown => None
   end.
 
 Section WithSymPy.
@@ -285,7 +366,11 @@ Section WithSymPy.
   Definition to_symbolic (F : sym_facts) (m : smodel) : sym_result :=
     match table_names F m with
     | None => SymErr ErrUnmodelled
-    | Some names => to_symbolic_on names F m
+    | Some names =>
+        match stat_view F m with
+        | None => SymErr ErrUnmodelled
+        | Some m' => to_symbolic_on names F m'
+        end
     end.
 
   (** SymbolicModel.jacobian: rows = equations (variable order), columns = variables.values() *)
